@@ -18,7 +18,7 @@ with
 
 Reply: ( R outcome <outcome> trace [ <event>* ] ) where <outcome> is N (io.write returned), ( ok tree I sourcepath ('s|N) )
 or ( exc cls 'c msg 'm syn T|F ).  The uninterpreted functions are instantiated by term builders: a value of
-`normrel`, `serialise`, `b64`, `repr` is the string U+0001 followed by the rendering of a `Val` term; the harness
+`relpath`, `serialise`, `b64`, `repr` is the string U+0001 followed by the rendering of a `Val` term; the harness
 evaluates such terms with the real functions.  `sources` of the request instantiates the sources list of `smWrite`.
 -/
 import CalmVerif.Util.Val
@@ -31,7 +31,7 @@ namespace IoDrv
 def sym (v : Val) : String := String.singleton (Char.ofNat 1) ++ v.render
 
 def oracle (sources : List String) : Oracle where
-  normrel b t := sym (.node "normrel" [("b", .str b), ("t", .str t)])
+  relpath b t := sym (.node "relpath" [("b", .str b), ("t", .str t)])
   smWrite nm _ := { mappings := sym (.node "mappings" [("norm", .bool nm)]), sources := sources,
                     names := sym (.node "names" []) }
   serialise f m s n := sym (.node "json" [("file", .str f), ("mappings", .str m),
